@@ -617,7 +617,7 @@ class Histogram:
         scale_factor = 1.0 / integral
 
         self.statistical_error()
-        self.scale_histogram(scale_factor)
+        self.scale_histogram(scale_factor / bin_widths)
 
     def add_histogram(self) -> "Histogram":
         """
